@@ -158,8 +158,10 @@ type HInv struct {
 	Ret      *status.Status
 	Parked   bool
 	Released bool
+	InRecv   bool  // the handler is inside RecvMsg right now
 	Recvd    []int // sizes of the messages the handler received
 	RecvErr  string
+	RecvEOF  bool
 	BadRecv  string // first payload mismatch
 }
 
@@ -414,9 +416,14 @@ func (w *World) streamHandler(kind, svc, mth string, ss grpc.ServerStream) error
 	tag := h.Tag
 	recvOne := func() error {
 		m := &Msg{}
-		if err := ss.RecvMsg(m); err != nil {
+		h.InRecv = true
+		err := ss.RecvMsg(m)
+		h.InRecv = false
+		if err != nil {
 			if err != io.EOF {
 				h.RecvErr = err.Error()
+			} else {
+				h.RecvEOF = true
 			}
 			return err
 		}
